@@ -3,195 +3,290 @@ import PySMT.Proofs.SimpVals
 import PySMT.Proofs.Coincidence
 /-!
 # Type soundness of the reference semantics on well-formed terms (`eval_hasSort`)
+
+`Proofs/Coincidence.lean` proves the operator step `evalOp_hasSort` for every operator except
+`arrayStore` / `arrayValue` under the shape condition `nodeFrag`. Here:
+
+* the canonical array values: `Val.store_hasSort`, `Val.normArr_hasSort`, `Val.mkArr_hasSort`,
+  `Sem.arrayValue_hasSort` (and `Val.hasSort_array_parts`, the decomposition of a well-sorted array
+  value into index sort / default / entries);
+* `Op.shapeOK_nodeFrag` : the shape condition of `Term.wf` implies `nodeFrag`;
+* `eval_hasSort` : type soundness of `eval` on well-formed terms, all operators;
+* corollaries `eval_bool_of_wf`, `eval_int_of_wf`, `eval_real_of_wf`, `eval_str_of_wf`, `eval_bv_of_wf`.
 -/
 namespace PySMT
 
-/-! ## argument values versus argument types -/
+/-! ## canonical array values -/
 
-/-- the argument values inhabit the argument types -/
-def ArgsOK : List Val → List (Option Ty) → Prop
-  | [], [] => True
-  | v :: vs, t :: ts => (∃ σ, t = some σ ∧ v.hasSort σ = true) ∧ ArgsOK vs ts
-  | _, _ => False
+/-- every entry has a key of sort `i` and a value of sort `e` -/
+def EntsOK (i e : Ty) (ents : List (Val × Val)) : Prop :=
+  ∀ kv ∈ ents, kv.1.hasSort i = true ∧ kv.2.hasSort e = true
 
-theorem ArgsOK.length_eq : ∀ {vs : List Val} {ts : List (Option Ty)}, ArgsOK vs ts → vs.length = ts.length
-  | [], [], _ => rfl
-  | _ :: _, _ :: _, h => by simp [ArgsOK.length_eq h.2]
-  | [], _ :: _, h => by simp [ArgsOK] at h
-  | _ :: _, [], h => by simp [ArgsOK] at h
+theorem EntsOK.nil {i e : Ty} : EntsOK i e [] := by
+  intro kv hkv; simp at hkv
 
-theorem ArgsOK.allAre : ∀ {vs : List Val} {ts : List (Option Ty)} {σ : Ty}, ArgsOK vs ts →
-    allAre ts σ = true → ∀ v ∈ vs, v.hasSort σ = true
-  | [], [], _, _, _ => by simp
-  | v :: vs, t :: ts, σ, h, ha => by
-    simp only [PySMT.allAre, List.all_cons, Bool.and_eq_true, beq_iff_eq] at ha
-    obtain ⟨⟨σ', rfl, hv⟩, hr⟩ := h
-    have : σ' = σ := by simpa using ha.1
-    subst this
-    intro x hx
-    rcases List.mem_cons.mp hx with rfl | hx
-    · exact hv
-    · exact ArgsOK.allAre hr (by simpa [PySMT.allAre] using ha.2) x hx
-  | [], _ :: _, _, h, _ => by simp [ArgsOK] at h
-  | _ :: _, [], _, h, _ => by simp [ArgsOK] at h
+theorem EntsOK.filter {i e : Ty} {ents : List (Val × Val)} (h : EntsOK i e ents) (f : Val × Val → Bool) :
+    EntsOK i e (ents.filter f) :=
+  fun kv hkv => h kv (List.mem_filter.mp hkv).1
 
-theorem ArgsOK.one {vs ts} (h : ArgsOK vs ts) (hl : vs.length = 1) :
-    ∃ a σa, vs = [a] ∧ ts = [some σa] ∧ a.hasSort σa = true := by
-  match vs, ts, h, hl with
-  | [a], [_], h, _ =>
-    obtain ⟨⟨σa, rfl, ha⟩, _⟩ := h
-    exact ⟨a, σa, rfl, rfl, ha⟩
-  | [_], [], h, _ => simp [ArgsOK] at h
-  | [_], _ :: _ :: _, h, _ => simp [ArgsOK] at h
+/-- a well-sorted array value decomposes into its index sort, a well-sorted default and
+well-sorted entries -/
+theorem Val.hasSort_array_parts {i e : Ty} : ∀ (a : Val), a.hasSort (.array i e) = true →
+    a.arrIdx = i ∧ a.arrDefault.hasSort e = true ∧ EntsOK i e a.arrEntries
+  | .aconst ix d, h => by
+    simp only [Val.hasSort, Bool.and_eq_true, beq_iff_eq] at h
+    exact ⟨h.1, h.2, EntsOK.nil⟩
+  | .astore a k v, h => by
+    simp only [Val.hasSort, Bool.and_eq_true] at h
+    obtain ⟨h1, h2, h3⟩ := Val.hasSort_array_parts a h.1.1
+    refine ⟨h1, h2, ?_⟩
+    intro kv hkv
+    simp only [Val.arrEntries, List.mem_append, List.mem_singleton] at hkv
+    rcases hkv with hkv | rfl
+    · exact h3 kv hkv
+    · exact ⟨h.1.2, h.2⟩
+  | .b _, h | .i _, h | .r _, h | .s _, h | .bv _ _, h | .u _ _, h => by simp [Val.hasSort] at h
 
-theorem ArgsOK.two {vs ts} (h : ArgsOK vs ts) (hl : vs.length = 2) :
-    ∃ a b σa σb, vs = [a, b] ∧ ts = [some σa, some σb] ∧ a.hasSort σa = true ∧ b.hasSort σb = true := by
-  match vs, ts, h, hl with
-  | [a, b], [_, _], h, _ =>
-    obtain ⟨⟨σa, rfl, ha⟩, ⟨σb, rfl, hb⟩, _⟩ := h
-    exact ⟨a, b, σa, σb, rfl, rfl, ha, hb⟩
-  | [_, _], [], h, _ => simp [ArgsOK] at h
-  | [_, _], [_], h, _ => simp [ArgsOK] at h
-  | [_, _], _ :: _ :: _ :: _, h, _ => simp [ArgsOK] at h
-
-theorem ArgsOK.three {vs ts} (h : ArgsOK vs ts) (hl : vs.length = 3) :
-    ∃ a b c σa σb σc, vs = [a, b, c] ∧ ts = [some σa, some σb, some σc] ∧
-      a.hasSort σa = true ∧ b.hasSort σb = true ∧ c.hasSort σc = true := by
-  match vs, ts, h, hl with
-  | [a, b, c], [_, _, _], h, _ =>
-    obtain ⟨⟨σa, rfl, ha⟩, ⟨σb, rfl, hb⟩, ⟨σc, rfl, hc⟩, _⟩ := h
-    exact ⟨a, b, c, σa, σb, σc, rfl, rfl, ha, hb, hc⟩
-  | [_, _, _], [], h, _ => simp [ArgsOK] at h
-  | [_, _, _], [_], h, _ => simp [ArgsOK] at h
-  | [_, _, _], [_, _], h, _ => simp [ArgsOK] at h
-  | [_, _, _], _ :: _ :: _ :: _ :: _, h, _ => simp [ArgsOK] at h
-
-/-! ## bit-vectors -/
-
-theorem Sem.bv1_hasSort (f : (w : Nat) → BitVec w → BitVec w) {a : Val} {w : Nat}
-    (ha : a.hasSort (.bv w) = true) : (Sem.bv1 f a).hasSort (.bv w) = true := by
-  obtain ⟨n, rfl, _⟩ := Val.hasSort_bv ha
-  exact Val.hasSort_bv_mk (BitVec.isLt _)
-
-theorem Sem.bv2_hasSort (f : (w : Nat) → BitVec w → BitVec w → BitVec w) {a b : Val} {w : Nat}
-    (ha : a.hasSort (.bv w) = true) (hb : b.hasSort (.bv w) = true) :
-    (Sem.bv2 f a b).hasSort (.bv w) = true := by
-  obtain ⟨n, rfl, _⟩ := Val.hasSort_bv ha
-  obtain ⟨m, rfl, _⟩ := Val.hasSort_bv hb
-  exact Val.hasSort_bv_mk (BitVec.isLt _)
-
-
-/-! ## payload conditions that `Op.shapeOK` must imply -/
-
-/-- payload shapes that `evalOp` needs and that the type checker does not enforce -/
-def Op.payloadOK (op : Op) (p : Payload) : Bool :=
-  match op, p with
-  | .intConst, .i _ | .realConst, .q _ | .strConst, .s _ => true
-  | .intConst, _ | .realConst, _ | .strConst, _ => false
-  | .bvZext, .ints [_, _] | .bvSext, .ints [_, _] => true
-  | .bvZext, _ | .bvSext, _ => false
-  | .bvExtract, .ints [_, lo, hi] => decide (lo ≤ hi)
-  | _, _ => true
-
-/-! ## inversion of `typeOfNode` (always through `rfl`: `simp [typeOfNode]` is too expensive) -/
-
-theorem inv_allAre {op p ts ts' τ σ ρ} (e : typeOfNode op p ts = if allAre ts' σ then some ρ else none)
-    (hty : typeOfNode op p ts = some τ) : τ = ρ ∧ allAre ts' σ = true := by
-  rw [e] at hty
-  split at hty
-  · next h => exact ⟨by simpa using hty.symm, h⟩
-  · simp at hty
-
-theorem inv_arith {op p ts τ}
-    (e : typeOfNode op p ts =
-      if allAre ts .real then some .real else if allAre ts .int then some .int else none)
-    (hty : typeOfNode op p ts = some τ) : (τ = .int ∨ τ = .real) ∧ allAre ts τ = true := by
-  rw [e] at hty
-  split at hty
-  · next h => have : τ = .real := by simpa using hty.symm
-              subst this; exact ⟨.inr rfl, h⟩
-  · split at hty
-    · next h => have : τ = .int := by simpa using hty.symm
-                subst this; exact ⟨.inl rfl, h⟩
-    · simp at hty
-
-theorem allAre_one {a σ : Ty} : allAre [some a] σ = true ↔ a = σ := by simp [allAre]
-theorem allAre_two {a b σ : Ty} : allAre [some a, some b] σ = true ↔ a = σ ∧ b = σ := by simp [allAre]
-theorem allAre_three {a b c σ : Ty} : allAre [some a, some b, some c] σ = true ↔ a = σ ∧ b = σ ∧ c = σ := by
-  simp [allAre]
-
-
-/-! ## semantic helpers -/
-
-theorem Sem.add_hasSort {a b : Val} {σ : Ty} (hσ : σ = .int ∨ σ = .real) (ha : a.hasSort σ = true)
-    (hb : b.hasSort σ = true) : (Sem.add a b).hasSort σ = true := by
-  rcases hσ with rfl | rfl
-  · obtain ⟨x, rfl⟩ := Val.hasSort_int ha; obtain ⟨y, rfl⟩ := Val.hasSort_int hb; rfl
-  · obtain ⟨x, rfl⟩ := Val.hasSort_real ha; obtain ⟨y, rfl⟩ := Val.hasSort_real hb; rfl
-
-theorem Sem.sub_hasSort {a b : Val} {σ : Ty} (hσ : σ = .int ∨ σ = .real) (ha : a.hasSort σ = true)
-    (hb : b.hasSort σ = true) : (Sem.sub a b).hasSort σ = true := by
-  rcases hσ with rfl | rfl
-  · obtain ⟨x, rfl⟩ := Val.hasSort_int ha; obtain ⟨y, rfl⟩ := Val.hasSort_int hb; rfl
-  · obtain ⟨x, rfl⟩ := Val.hasSort_real ha; obtain ⟨y, rfl⟩ := Val.hasSort_real hb; rfl
-
-theorem Sem.mul_hasSort {a b : Val} {σ : Ty} (hσ : σ = .int ∨ σ = .real) (ha : a.hasSort σ = true)
-    (hb : b.hasSort σ = true) : (Sem.mul a b).hasSort σ = true := by
-  rcases hσ with rfl | rfl
-  · obtain ⟨x, rfl⟩ := Val.hasSort_int ha; obtain ⟨y, rfl⟩ := Val.hasSort_int hb; rfl
-  · obtain ⟨x, rfl⟩ := Val.hasSort_real ha; obtain ⟨y, rfl⟩ := Val.hasSort_real hb; rfl
-
-theorem Sem.div_hasSort (I : Interp) {a b : Val} {σ : Ty} (hσ : σ = .int ∨ σ = .real)
-    (ha : a.hasSort σ = true) (hb : b.hasSort σ = true) : (Sem.div I a b).hasSort σ = true := by
-  rcases hσ with rfl | rfl
-  · obtain ⟨x, rfl⟩ := Val.hasSort_int ha; obtain ⟨y, rfl⟩ := Val.hasSort_int hb
-    simp only [Sem.div]; split <;> rfl
-  · obtain ⟨x, rfl⟩ := Val.hasSort_real ha; obtain ⟨y, rfl⟩ := Val.hasSort_real hb
-    simp only [Sem.div]; split <;> rfl
-
-theorem foldl_hasSort (f : Val → Val → Val) (σ : Ty)
-    (hf : ∀ a b, a.hasSort σ = true → b.hasSort σ = true → (f a b).hasSort σ = true) :
-    ∀ (vs : List Val) (acc : Val), acc.hasSort σ = true → (∀ v ∈ vs, v.hasSort σ = true) →
-      (vs.foldl f acc).hasSort σ = true
-  | [], _, hacc, _ => hacc
-  | v :: vs, acc, hacc, h => by
+theorem Val.foldl_astore_hasSort {i e : Ty} : ∀ (ents : List (Val × Val)) (acc : Val),
+    acc.hasSort (.array i e) = true → EntsOK i e ents →
+    (ents.foldl (fun a kv => Val.astore a kv.1 kv.2) acc).hasSort (.array i e) = true
+  | [], _, h, _ => h
+  | kv :: ents, acc, h, he => by
     simp only [List.foldl_cons]
-    exact foldl_hasSort f σ hf vs _ (hf _ _ hacc (h v (by simp))) (fun x hx => h x (by simp [hx]))
+    refine Val.foldl_astore_hasSort ents _ ?_ (fun x hx => he x (by simp [hx]))
+    have := he kv (by simp)
+    simp [Val.hasSort, h, this.1, this.2]
 
-theorem Sem.sum_hasSort {vs : List Val} {σ : Ty} (hσ : σ = .int ∨ σ = .real) (hne : vs ≠ [])
-    (h : ∀ v ∈ vs, v.hasSort σ = true) : (Sem.sum vs).hasSort σ = true := by
-  cases vs with
-  | nil => exact absurd rfl hne
-  | cons v vs =>
-    exact foldl_hasSort _ σ (fun _ _ => Sem.add_hasSort hσ) vs v (h v (by simp)) (fun x hx => h x (by simp [hx]))
+theorem Val.mkArr_hasSort {i e : Ty} {d : Val} {ents : List (Val × Val)} (hd : d.hasSort e = true)
+    (he : EntsOK i e ents) : (Val.mkArr i d ents).hasSort (.array i e) = true :=
+  Val.foldl_astore_hasSort ents _ (by simp [Val.hasSort, hd]) he
 
-theorem Sem.prod_hasSort {vs : List Val} {σ : Ty} (hσ : σ = .int ∨ σ = .real) (hne : vs ≠ [])
-    (h : ∀ v ∈ vs, v.hasSort σ = true) : (Sem.prod vs).hasSort σ = true := by
-  cases vs with
-  | nil => exact absurd rfl hne
-  | cons v vs =>
-    exact foldl_hasSort _ σ (fun _ _ => Sem.mul_hasSort hσ) vs v (h v (by simp)) (fun x hx => h x (by simp [hx]))
+theorem Val.insertEnt_ok {i e : Ty} {k v : Val} (hk : k.hasSort i = true) (hv : v.hasSort e = true) :
+    ∀ (ents : List (Val × Val)), EntsOK i e ents → EntsOK i e (Val.insertEnt k v ents)
+  | [], _ => by
+    intro kv hkv
+    simp only [Val.insertEnt, List.mem_singleton] at hkv
+    subst hkv; exact ⟨hk, hv⟩
+  | (k', v') :: rest, h => by
+    intro kv hkv
+    simp only [Val.insertEnt] at hkv
+    split at hkv
+    · rcases List.mem_cons.mp hkv with rfl | hkv
+      · exact ⟨hk, hv⟩
+      · exact h kv (by simp [hkv])
+    · split at hkv
+      · rcases List.mem_cons.mp hkv with rfl | hkv
+        · exact ⟨hk, hv⟩
+        · exact h kv hkv
+      · rcases List.mem_cons.mp hkv with rfl | hkv
+        · exact h _ (by simp)
+        · exact Val.insertEnt_ok hk hv rest (fun x hx => h x (by simp [hx])) kv hkv
 
-theorem Sem.mkS_hasSort (l : List Char) : (Sem.mkS l).hasSort .str = true := rfl
+theorem Val.lookupEnt_hasSort {i e : Ty} {d : Val} (k : Val) (hd : d.hasSort e = true) :
+    ∀ (ents : List (Val × Val)), EntsOK i e ents → (Val.lookupEnt k d ents).hasSort e = true
+  | [], _ => hd
+  | (k', v') :: rest, h => by
+    simp only [Val.lookupEnt]
+    split
+    · exact (h (k', v') (by simp)).2
+    · exact Val.lookupEnt_hasSort k hd rest (fun x hx => h x (by simp [hx]))
 
-section ops
-variable {I : Interp} {p : Payload} {vs : List Val} {ts : List (Option Ty)} {τ : Ty}
+theorem Val.smallDomain_sort {i : Ty} {dom : List Val} (h : Val.smallDomain i = some dom) :
+    ∀ k ∈ dom, k.hasSort i = true := by
+  cases i <;> simp only [Val.smallDomain] at h <;> try (cases h; done)
+  · cases h
+    intro k hk
+    simp only [List.mem_cons, List.mem_nil_iff, or_false] at hk
+    rcases hk with rfl | rfl <;> rfl
+  · next w =>
+    split at h
+    · cases h
+      intro k hk
+      simp only [List.mem_map, List.mem_range] at hk
+      obtain ⟨n, hn, rfl⟩ := hk
+      exact Val.hasSort_bv_mk hn
+    · cases h
 
-theorem sort_and (hty : typeOfNode .and p ts = some τ) : (evalOp I .and p vs).hasSort τ = true := by
-  obtain ⟨rfl, _⟩ := inv_allAre (σ := .bool) (ρ := .bool) rfl hty
-  exact Val.hasSort_b _
+theorem Val.normArr_hasSort {i e : Ty} {d : Val} {ents : List (Val × Val)} (hd : d.hasSort e = true)
+    (he : EntsOK i e ents) : (Val.normArr i d ents).hasSort (.array i e) = true := by
+  unfold Val.normArr
+  split
+  · next dom hdom =>
+    split
+    · next m hm =>
+      simp only
+      split
+      · exact Val.mkArr_hasSort hd he
+      · refine Val.mkArr_hasSort (Val.lookupEnt_hasSort m hd ents he) (EntsOK.filter ?_ _)
+        intro kv hkv
+        simp only [List.mem_map] at hkv
+        obtain ⟨k, hk, rfl⟩ := hkv
+        exact ⟨Val.smallDomain_sort hdom k (List.dropLast_subset dom hk), Val.lookupEnt_hasSort k hd ents he⟩
+    · exact Val.mkArr_hasSort hd he
+  · exact Val.mkArr_hasSort hd he
 
-theorem sort_or (hty : typeOfNode .or p ts = some τ) : (evalOp I .or p vs).hasSort τ = true := by
-  obtain ⟨rfl, _⟩ := inv_allAre (σ := .bool) (ρ := .bool) rfl hty
-  exact Val.hasSort_b _
+/-- `store` on well-sorted arguments is a well-sorted array value -/
+theorem Val.store_hasSort {i e : Ty} {a k v : Val} (ha : a.hasSort (.array i e) = true)
+    (hk : k.hasSort i = true) (hv : v.hasSort e = true) : (a.store k v).hasSort (.array i e) = true := by
+  obtain ⟨h1, h2, h3⟩ := Val.hasSort_array_parts a ha
+  unfold Val.store
+  simp only [h1]
+  split
+  · exact Val.normArr_hasSort h2 (h3.filter _)
+  · exact Val.normArr_hasSort h2 (Val.insertEnt_ok hk hv _ h3)
 
-theorem sort_not (hs : Op.shapeOK .not p vs.length = true) (hty : typeOfNode .not p ts = some τ)
-    (ha : ArgsOK vs ts) : (evalOp I .not p vs).hasSort τ = true := by
-  obtain ⟨rfl, _⟩ := inv_allAre (σ := .bool) (ρ := .bool) rfl hty
-  have hl : vs.length = 1 := by simpa using (show (vs.length == 1) = true from hs)
-  obtain ⟨a, σa, rfl, rfl, ha⟩ := ha.one hl
-  exact Val.hasSort_b _
+/-- `select` on a well-sorted array value gives a value of the element sort -/
+theorem Val.select_hasSort {i e : Ty} (j : Val) : ∀ (a : Val), a.hasSort (.array i e) = true →
+    (a.select j).hasSort e = true
+  | .astore a k v, h => by
+    simp only [Val.hasSort, Bool.and_eq_true] at h
+    simp only [Val.select]
+    split
+    · exact h.2
+    · exact Val.select_hasSort j a h.1.1
+  | .aconst ix d, h => by
+    simp only [Val.hasSort, Bool.and_eq_true] at h
+    exact h.2
+  | .b _, h | .i _, h | .r _, h | .s _, h | .bv _ _, h | .u _ _, h => by simp [Val.hasSort] at h
 
-end ops
+/-! ## `arrayStore`, `arrayValue` -/
+
+/-- close a goal whose typing hypothesis computes to `none = some _` -/
+local macro "tnone " h:ident : tactic => `(tactic| try (cases $h:ident; done))
+
+theorem typeOfNode_arrayStore {p ts τ} (h : typeOfNode .arrayStore p ts = some τ) :
+    ∃ i e, ts = [some (.array i e), some i, some e] ∧ τ = .array i e := by
+  rcases ts with _ | ⟨_ | ⟨t1⟩, r1⟩ <;> tnone h
+  cases t1 <;> tnone h
+  rcases r1 with _ | ⟨_ | ⟨t2⟩, r2⟩ <;> tnone h
+  rcases r2 with _ | ⟨_ | ⟨t3⟩, r3⟩ <;> tnone h
+  rcases r3 with _ | ⟨t4, r4⟩ <;> tnone h
+  obtain ⟨⟨rfl, rfl⟩, rfl⟩ := of_ite_some h
+  exact ⟨_, _, rfl, rfl⟩
+
+theorem typeOfNode_arrayValue {p ts τ} (h : typeOfNode .arrayValue p ts = some τ) :
+    ∃ idx d rest, p = .ty idx ∧ ts = some d :: rest ∧ typeOfNode.chk idx d rest = true ∧ τ = .array idx d := by
+  cases p <;> tnone h
+  rcases ts with _ | ⟨_ | ⟨t1⟩, r1⟩ <;> tnone h
+  obtain ⟨hc, rfl⟩ := of_ite_some h
+  exact ⟨_, _, _, rfl, rfl, hc, rfl⟩
+
+theorem Sem.arrayValue_hasSort {idx e : Ty} {d0 : Val} (hd : d0.hasSort e = true) :
+    ∀ {vs : List Val} {ts : List (Option Ty)}, SortedAll vs ts → typeOfNode.chk idx e ts = true →
+      (Sem.arrayValue idx d0 vs).hasSort (.array idx e) = true
+  | _, _, .nil, _ => by simp [Sem.arrayValue, Val.hasSort, hd]
+  | _, _, .cons _ .nil, h => by simp [typeOfNode.chk] at h
+  | _, _, .cons (v := k) (t := tk) hk (.cons (v := v) (t := tv) hv hs), h => by
+    simp only [typeOfNode.chk, Bool.and_eq_true, beq_iff_eq] at h
+    obtain ⟨⟨rfl, rfl⟩, hrest⟩ := h
+    simp only [Sem.arrayValue]
+    exact Val.store_hasSort (Sem.arrayValue_hasSort hd hs hrest) (hk _ rfl) (hv _ rfl)
+
+/-! ## `Op.shapeOK` implies the shape condition of `evalOp_hasSort` -/
+
+theorem Op.shapeOK_nodeFrag {op : Op} {p : Payload} {n : Nat} (h : op.shapeOK p n = true)
+    (h1 : op ≠ .arrayStore) (h2 : op ≠ .arrayValue) : nodeFrag op p n = true := by
+  cases op <;> first
+    | exact absurd rfl h1
+    | exact absurd rfl h2
+    | exact h
+    | rfl
+    | exact absurd h Bool.false_ne_true
+    | exact decide_eq_true (by have := of_decide_eq_true h; omega)
+    | (cases p <;> first
+        | exact h
+        | rfl
+        | exact absurd h Bool.false_ne_true
+        | exact (Bool.and_eq_true_iff.mp h).2
+        | (rename_i l
+           rcases l with _ | ⟨a, _ | ⟨b, _ | ⟨c, _ | ⟨d, r⟩⟩⟩⟩ <;> first
+            | exact h
+            | rfl
+            | exact absurd h Bool.false_ne_true
+            | exact (Bool.and_eq_true_iff.mp h).2
+            | exact Bool.and_eq_true_iff.mpr ⟨h, rfl⟩))
+
+/-! ## the operator step, all operators -/
+
+/-- sort preservation of `evalOp` for every operator with an admissible shape -/
+theorem evalOp_hasSort_wf (I : Interp) (op : Op) (p : Payload) (vs : List Val) (ts : List (Option Ty))
+    (τ : Ty) (hshape : op.shapeOK p vs.length = true) (hs : SortedAll vs ts)
+    (ht : typeOfNode op p ts = some τ)
+    (h1 : op ≠ .symbol) (h2 : op ≠ .function) (h3 : op.isQuantifier = false) :
+    (evalOp I op p vs).hasSort τ = true := by
+  by_cases hst : op = .arrayStore
+  · subst hst
+    obtain ⟨i, e, rfl, rfl⟩ := typeOfNode_arrayStore ht
+    obtain ⟨a, k, v, rfl, ha, hk, hv⟩ := sortedAll_3 hs
+    exact Val.store_hasSort (ha _ rfl) (hk _ rfl) (hv _ rfl)
+  by_cases hav : op = .arrayValue
+  · subst hav
+    obtain ⟨idx, d, rest, rfl, rfl, hc, rfl⟩ := typeOfNode_arrayValue ht
+    obtain ⟨d0, vs', rfl, hd, hs'⟩ := sortedAll_cons hs
+    exact Sem.arrayValue_hasSort (hd _ rfl) hs' hc
+  exact evalOp_hasSort I op p vs ts τ (Op.shapeOK_nodeFrag hshape hst hav) hs ht h1 h2 h3
+
+/-! ## type soundness -/
+
+/-- type soundness of `eval` on well-formed terms -/
+theorem eval_hasSort : (t : Term) → t.wf = true → ∀ τ : Ty, t.typeOf = some τ →
+    ∀ I : Interp, I.WF → (eval I t).hasSort τ = true
+  | .node op args p => fun hwf τ hty I hI => by
+    obtain ⟨hch, hshape, -⟩ := Term.wf_node.mp hwf
+    have ih : ∀ a ∈ args, SortedAs (eval I a) a.typeOf := fun a ha τ' h' =>
+      eval_hasSort a (hch a ha) τ' h' I hI
+    rw [typeOf_node] at hty
+    by_cases hsym : op = .symbol
+    · subst hsym
+      obtain ⟨hts, s, rfl, hpar⟩ := typeOfNode_symbol (by rw [hty]; rfl)
+      rw [typeOfNode_symbol_eq, hts] at hty
+      obtain ⟨_, rfl⟩ := of_ite_some hty
+      rw [eval_symbol]; exact hI.sym s
+    by_cases hfun : op = .function
+    · subst hfun
+      rw [typeOfNode_function_eq] at hty
+      cases p <;> try (cases hty; done)
+      obtain ⟨_, rfl⟩ := of_ite_some hty
+      rw [eval_function]; exact hI.fn _ _
+    by_cases hq : op.isQuantifier = true
+    · cases op <;> simp [Op.isQuantifier] at hq
+      · rw [typeOfNode_forall_eq] at hty
+        have : τ = .bool := by split at hty <;> simp_all
+        subst this
+        rw [eval_node, evalNode_forall]
+        split <;> rfl
+      · rw [typeOfNode_exists_eq] at hty
+        have : τ = .bool := by split at hty <;> simp_all
+        subst this
+        rw [eval_node, evalNode_exists]
+        split <;> rfl
+    · have hq' : op.isQuantifier = false := by simpa using hq
+      rw [eval_plain I op args p hsym hfun hq']
+      exact evalOp_hasSort_wf I op p _ _ τ (by simpa using hshape) (sortedAll_map _ _ args ih) hty hsym hfun hq'
+
+theorem eval_bool_of_wf {t : Term} {I : Interp} (hwf : t.wf = true) (hty : t.typeOf = some .bool)
+    (hI : I.WF) : ∃ b, eval I t = .b b :=
+  Val.hasSort_bool (eval_hasSort t hwf .bool hty I hI)
+
+theorem eval_int_of_wf {t : Term} {I : Interp} (hwf : t.wf = true) (hty : t.typeOf = some .int)
+    (hI : I.WF) : ∃ n, eval I t = .i n :=
+  Val.hasSort_int (eval_hasSort t hwf .int hty I hI)
+
+theorem eval_real_of_wf {t : Term} {I : Interp} (hwf : t.wf = true) (hty : t.typeOf = some .real)
+    (hI : I.WF) : ∃ q, eval I t = .r q :=
+  Val.hasSort_real (eval_hasSort t hwf .real hty I hI)
+
+theorem eval_str_of_wf {t : Term} {I : Interp} (hwf : t.wf = true) (hty : t.typeOf = some .str)
+    (hI : I.WF) : ∃ s, eval I t = .s s :=
+  Val.hasSort_str (eval_hasSort t hwf .str hty I hI)
+
+theorem eval_bv_of_wf {t : Term} {I : Interp} {w : Nat} (hwf : t.wf = true) (hty : t.typeOf = some (.bv w))
+    (hI : I.WF) : ∃ n, eval I t = .bv w n ∧ n < 2 ^ w :=
+  Val.hasSort_bv (eval_hasSort t hwf (.bv w) hty I hI)
+
+theorem eval_array_of_wf {t : Term} {I : Interp} {i e : Ty} (hwf : t.wf = true)
+    (hty : t.typeOf = some (.array i e)) (hI : I.WF) :
+    (eval I t).arrIdx = i ∧ (eval I t).arrDefault.hasSort e = true ∧ EntsOK i e (eval I t).arrEntries :=
+  Val.hasSort_array_parts _ (eval_hasSort t hwf (.array i e) hty I hI)
 
 end PySMT
